@@ -163,7 +163,7 @@ CHECKS = {
          "running inputs, no orphan except held by a foreign finalizer, torn-down inputs released`. The real transform / "
          "qtransform controllers (6 option configurations) run on the real runtime in a synctest bubble while TLC-generated "
          "external histories are executed, optionally with the transform held in flight or failing transiently; the quiet "
-         "snapshot is judged by TLC (TraceLifecycle.tla, JUDGE=C06). Skip mode (the transform asks to skip every reconcile from some point on) and configurations with destroy.Controller for the input type are driven as well. Configurations with an optional mapping (MapMetadataOptionalFunc turning None for an input that was mapped) and directed ignore-teardown scenarios are part of every run. Secondary input kinds read by the transform function (qtransform WithExtraMappedInput, transform WithExtraInputs) are modelled (LifecycleQT / LifecycleT with Extra: read and write of the output are separate steps, a change of the secondary queues a map job) and driven (image = 10 * input + secondary); configurations with inputs and outputs in ONE namespace are part of every run.",
+         "snapshot is judged by TLC (TraceLifecycle.tla, JUDGE=C06). Skip mode (the transform asks to skip every reconcile from some point on) and configurations with destroy.Controller for the input type are driven as well. Configurations with an optional mapping (MapMetadataOptionalFunc turning None for an input that was mapped) and directed ignore-teardown scenarios are part of every run. Secondary input kinds read by the transform function (qtransform WithExtraMappedInput, transform WithExtraInputs) are modelled (LifecycleQT / LifecycleT with Extra: read and write of the output are separate steps, a change of the secondary queues a map job) and driven (image = 10 * input + secondary); configurations with inputs and outputs in ONE namespace are part of every run. Configurations with label-filtered inputs (transform.WithInputListOptions) are part of every run; they exposed open finding 19 (the finalizer left on an input that stops matching the filter).",
     note="Trusted: TLC, synctest quiescence, C05 (notification fairness). Known finding (ignore-teardown options) listed in "
          "known_findings.json and reproduced by the model config MC_LifecycleQT_ignore.",
     technique="TLA+ controller lifecycle models + TLC; history replay on the real controllers; TLC trace validation",
